@@ -24,7 +24,7 @@ def main(seed, count):
     bath = oqupy.Bath(0.5 * sz, corr)
     rho = np.array([[0.6, 0.2], [0.2, 0.4]], dtype=complex)
     for _ in range(count):
-        kind = ("tempo", "mftempo", "tebd", "pttempo", "gibbs")[int(rng.integers(0, 5))]
+        kind = ("tempo", "mftempo", "tebd", "pttempo", "gibbs", "cd")[int(rng.integers(0, 6))]
         dt = float((0.1, 0.2, 0.05, 0.3, 0.25)[int(rng.integers(0, 5))])
         start = float((0.0, 0.5, -0.3, 1.0)[int(rng.integers(0, 4))])
         fail = {"at": int(rng.integers(0, 30)) if rng.random() < 0.4 else -1, "n": 0}
@@ -35,6 +35,37 @@ def main(seed, count):
                 if fail["n"] == fail["at"] + 1:
                     raise Boom()
             return 0.5 * sx + 0.1 * np.cos(t) * sz
+        if kind == "cd":
+            # the stateless front ends with hand-built process tensors of different lengths
+            from oqupy.process_tensor import SimpleProcessTensor
+            pts = []
+            for _p in range(int(rng.integers(0, 3))):
+                pt = SimpleProcessTensor(2, dt=dt)
+                for k in range(int(rng.integers(1, 6))):
+                    pt.set_mpo_tensor(k, np.eye(4).reshape(1, 1, 4, 4))
+                pt.compute_caps()
+                pts.append(pt)
+            ns = int(rng.integers(0, 5)) if (not pts or rng.random() < 0.3) else None
+            if pts and ns is not None:
+                ns = min(ns, min(len(p) for p in pts))
+            kw = dict(initial_state=rho, start_time=start, record_all=bool(rng.random() < 0.7), progress_type="silent")
+            if ns is not None:
+                kw["num_steps"] = ns
+            if not pts or rng.random() < 0.3:
+                kw["dt"] = dt
+            fail["armed"] = True
+            try:
+                if rng.random() < 0.5:
+                    oqupy.compute_dynamics(oqupy.TimeDependentSystem(ham) if fail["at"] >= 0 else oqupy.System(0.5 * sx),
+                                           process_tensor=pts if pts else None, **kw)
+                else:
+                    fs = oqupy.TimeDependentSystemWithField(lambda t, a: 0.5 * sx + 0.1 * a.real * sz)
+                    mfs = oqupy.MeanFieldSystem([fs], field_eom=lambda t, st, a: -0.5j * a)
+                    kw["initial_state_list"] = [kw.pop("initial_state")]
+                    oqupy.compute_dynamics_with_field(mfs, 0.2 + 0j, process_tensor_list=[pts] if pts else None, **kw)
+            except (Boom, AssertionError, ValueError, UnboundLocalError, IndexError):
+                pass
+            continue
         params = oqupy.TempoParameters(dt=dt, epsrel=1e-4, dkmax=int(rng.integers(1, 4)), subdiv_limit=None)
         ncalls = int(rng.integers(1, 5))
         try:
